@@ -4,7 +4,7 @@
 #    demo passes without / fails with), 2) applies the patch to /repo, runs the given quick checks, restores /repo.
 set -u
 ID="$1"; shift
-WT=/tmp/wt/$ID; OUT=/tmp/wtout/$ID
+WT=${WTBASE:-/tmp/wt}/$ID; OUT=${OUTBASE:-/tmp/wtout}/$ID
 DEMO=$(ls $OUT/demo_*.rs 2>/dev/null | head -1)
 [ -f "$OUT/patch.diff" ] || { echo "no patch.diff"; exit 2; }
 cd $WT || exit 2
